@@ -366,6 +366,14 @@ def run(tier):
     if r[3] and len(samples) < 2:
       samples.append(r[3])
   rep.add_part('plugs-x-faults', evaluations=n, distinct_nontrivial=sum(r[2] for r in res), exhaustive=True, samples=samples)
+  shapes = set()
+  for v in OVERLAP_VARIANTS:
+    out = run_overlap(v)
+    shapes.add(tuple(e[:2] for e in out['log']))
+    for kind, what in check_overlap(v, out):
+      rep.merge_violations([('%s:%s' % (kind, v[2]), 'overlapping runs %r: %s' % (v, what), {'overlap': v})])
+  rep.add_part('two overlapping runs sharing plug classes', evaluations=len(OVERLAP_VARIANTS), distinct_nontrivial=len(shapes),
+               exhaustive=True, samples=[{'variants': len(OVERLAP_VARIANTS), 'shape': 'one run suspended inside its first phase while the other executes completely'}])
   rep.assumptions = [
       '3 instrumented plug classes, 7 request shapes per phase (incl. one class under two names, update_kwargs=False), '
       '5 test_start forms, one injected fault per run from the menu in cases()',
@@ -375,7 +383,111 @@ def run(tier):
   return rep.finish(rule='all assignments x all single faults; distinct_nontrivial = distinct event-log shapes')
 
 
+# ---- two runs that overlap in time and use the same plug class --------------------------------------------------------
+def run_overlap(variant):
+  """variant: (requests of run X's two phases, requests of run Y's two phases, which run is suspended: 'X'|'Y').
+
+  The suspended run stops inside its first phase until the other run has executed completely (event-driven)."""
+  L = progs.lib()
+  h = L['htf']
+  C = classes()
+  del LOG[:]
+  FAULTS.clear()
+  reqx, reqy, held = variant
+  in_p1, go = threading.Event(), threading.Event()
+
+  def mk_test(tag, reqs, suspended):
+    def mk(i, req):
+      def body(test, **kw):
+        LOG.append(('phase', '%s.ph%d' % (tag, i), tuple(sorted((k, id(v)) for k, v in kw.items()))))
+        if suspended and i == 0:
+          in_p1.set()
+          go.wait(10)
+      body.__name__ = '%s_ph%d' % (tag, i)
+      ph = h.PhaseOptions(name=body.__name__)(body)
+      if req:
+        ph = L['plugs'].plug(**{arg: C[letter] for arg, letter in req})(ph)
+      return ph
+    t = h.Test(*[mk(i, r) for i, r in enumerate(reqs)])
+    outs = []
+    t.add_output_callbacks(lambda rec: (LOG.append(('callback', tag, rec.outcome.name if rec.outcome else None)), outs.append(rec))[1])
+    return t
+
+  tx = mk_test('X', reqx, held == 'X')
+  ty = mk_test('Y', reqy, held == 'Y')
+  first, second = (tx, ty) if held == 'X' else (ty, tx)
+  res = {}
+  th1 = threading.Thread(target=lambda: res.setdefault('first', first.execute()), name='run-' + held)
+  th1.start()
+  ok = in_p1.wait(10)
+  try:
+    res['second'] = second.execute() if ok else None
+  finally:
+    go.set()
+    th1.join(20)
+  return {'res': res, 'log': list(LOG), 'suspended_started': ok}
+
+
+def check_overlap(variant, out):
+  bad = []
+  log = out['log']
+  reqx, reqy, held = variant
+  if not out['suspended_started']:
+    return [('overlap-harness', 'the suspended run never reached its first phase')]
+  for tag, reqs in (('X', reqx), ('Y', reqy)):
+    phases = [(i, e) for i, e in enumerate(log) if e[0] == 'phase' and e[1].startswith(tag + '.')]
+    cb = [i for i, e in enumerate(log) if e[0] == 'callback' and e[1] == tag]
+    outcome = [e[2] for e in log if e[0] == 'callback' and e[1] == tag]
+    if outcome != ['PASS']:
+      bad.append(('overlap-outcome', 'run %s ended %r, expected one PASS record (phases seen %r)' % (tag, outcome, [e[1] for _, e in phases])))
+    if len(phases) != len(reqs):
+      bad.append(('overlap-phases', 'run %s executed %d of %d phases' % (tag, len(phases), len(reqs))))
+    # one instance per class for this run: every phase sees the same object for the same class
+    per_class = {}
+    for (_, e), req in zip(phases, reqs):
+      got = dict(e[2])
+      for arg, letter in req:
+        if arg not in got:
+          bad.append(('overlap-injection', 'run %s phase %s did not receive %s' % (tag, e[1], arg)))
+          continue
+        per_class.setdefault(letter, set()).add(got[arg])
+    for letter, ids in per_class.items():
+      if len(ids) != 1:
+        bad.append(('overlap-instances', 'run %s saw %d different instances of plug class %s' % (tag, len(ids), letter)))
+      for pid in ids:
+        tds = [i for i, e in enumerate(log) if e[0] == 'teardown' and e[2] == pid]
+        if len(tds) != 1:
+          bad.append(('overlap-teardown-count', 'the %s instance used by run %s had tearDown called %d times' % (letter, tag, len(tds))))
+        elif phases and tds[0] < phases[-1][0]:
+          bad.append(('overlap-teardown-early', 'the %s instance used by run %s was torn down before that run\'s last phase' % (letter, tag)))
+        elif cb and tds[0] > cb[0]:
+          bad.append(('overlap-teardown-late', 'the %s instance used by run %s was torn down after its output callback' % (letter, tag)))
+    other = 'Y' if tag == 'X' else 'X'
+    mine = {pid for ids in per_class.values() for pid in ids}
+    theirs = {pid for _, e in [(i, e) for i, e in enumerate(log) if e[0] == 'phase' and e[1].startswith(other + '.')] for _, pid in e[2]}
+    if mine & theirs:
+      bad.append(('overlap-shared-instance', 'runs X and Y were handed the same plug instance'))
+  return bad
+
+
+OVERLAP_VARIANTS = [
+    ([[('a', 'A')], [('a', 'A')]], [[('a', 'A')], [('a', 'A')]], 'X'),
+    ([[('a', 'A')], [('a', 'A'), ('b', 'B')]], [[('b', 'B')], [('a', 'A')]], 'X'),
+    ([[], [('a', 'A')]], [[('a', 'A')], []], 'X'),
+    ([[('a', 'A')], [('c', 'C')]], [[('c', 'C')], [('c', 'C')]], 'Y'),
+]
+
+
 def replay(art):
+  if 'overlap' in art['replay']:
+    v = art['replay']['overlap']
+    v = ([[tuple(x) for x in r] for r in v[0]], [[tuple(x) for x in r] for r in v[1]], v[2])
+    out = run_overlap(v)
+    print('log', [e[:2] for e in out['log']])
+    bad = check_overlap(v, out)
+    for b in bad:
+      print('VIOLATED', b)
+    return 1 if bad else 0
   case = art['replay']['case']
   case['fault'] = tuple(case['fault'])
   out = run_case(case)
